@@ -247,7 +247,11 @@ template<typename FwdC>
 void req_compactor<T, C, A>::merge(FwdC&& other) {
   // TODO: swap if other is larger?
   if (lg_weight_ != other.lg_weight_) throw std::logic_error("weight mismatch");
+  const bool was_even = (state_ & 1) == 0;
   state_ |= other.state_;
+  // an odd state makes the next compaction flip coin_ instead of drawing one: that is only fair if coin_ is a random
+  // coin of this compactor's current pair, not the initial value or the one left over from a completed pair
+  if (was_even && (state_ & 1) == 1) coin_ = random_utils::random_bit();
   while (ensure_enough_sections()) {}
   ensure_space(other.get_num_items());
   sort();
